@@ -46,7 +46,13 @@ pub fn call_slot(rng: &mut Rng, b: Builder, slot: usize, small: bool) -> (Builde
         2 => {
             // few distinct start addresses, so that repeated modules often share one
             let s = if rng.chance(1, 2) { rng.below(3) as u32 * 0x1000 } else { rng.u32() >> 1 };
-            let t = ModuleTag::new(s, s + 1 + (rng.u32() >> 2), &text);
+            // one call in four supplies one of two fixed modules, so that byte-identical
+            // modules are supplied more than once (each must still be in the walk)
+            let t = if rng.chance(1, 4) {
+                if rng.chance(1, 2) { ModuleTag::new(0x1000, 0x2000, "m") } else { ModuleTag::new(0x1000, 0x2000, "") }
+            } else {
+                ModuleTag::new(s, s + 1 + (rng.u32() >> 2), &text)
+            };
             let i = image(&*t);
             (b.add_module(t), i)
         }
@@ -118,7 +124,7 @@ pub fn call_slot(rng: &mut Rng, b: Builder, slot: usize, small: bool) -> (Builde
         12 => {
             let n = if small { 2 } else { rng.below(20) as usize };
             // few distinct version numbers, so that repeated tags often share them
-            let t = SmbiosTag::new(rng.below(3) as u8, rng.below(3) as u8, &rng.bytes(n));
+            let t = if rng.chance(1, 4) { SmbiosTag::new(2, 1, &[7, 7]) } else { SmbiosTag::new(rng.below(3) as u8, rng.below(3) as u8, &rng.bytes(n)) };
             let i = image(&*t);
             (b.add_smbios(t), i)
         }
@@ -174,7 +180,11 @@ pub fn call_slot(rng: &mut Rng, b: Builder, slot: usize, small: bool) -> (Builde
                 3 => 0x1000 + rng.below(16) as u32,
                 _ => 22 + rng.below(u32::MAX as u64 - 22) as u32,
             };
-            let t = new_boxed::<DynSizedStructure<TagHeader>>(TagHeader::new(TagType::Custom(id), 0), &[&rng.bytes(n)]);
+            let t = if rng.chance(1, 4) {
+                new_boxed::<DynSizedStructure<TagHeader>>(TagHeader::new(TagType::Custom(0x77), 0), &[&[1u8, 2, 3]])
+            } else {
+                new_boxed::<DynSizedStructure<TagHeader>>(TagHeader::new(TagType::Custom(id), 0), &[&rng.bytes(n)])
+            };
             let i = image(&*t);
             (b.add_custom_tag(t), i)
         }
